@@ -220,6 +220,14 @@ class Canon:
                 return ast.Constant(v)
             if isinstance(v, (tuple, list)) and 0 < len(v) <= 16 and all(isinstance(x, (int, bytes, str)) and not isinstance(x, bool) for x in v):
                 return ast.Tuple([ast.Constant(x) for x in v], ast.Load())
+        if isinstance(e, ast.Compare) and len(e.ops) > 1:
+            # a <= b < c  is  a <= b and b < c  (the operands are values: impure calls keep their identity tag)
+            parts = []
+            left = e.left
+            for op, right in zip(e.ops, e.comparators):
+                parts.append(ast.Compare(copy.deepcopy(left), [op], [copy.deepcopy(right)]))
+                left = right
+            return ast.BoolOp(ast.And(), parts)
         if isinstance(e, ast.Slice):
             e.lower = self.linear(e.lower, True) if e.lower is not None else None
             e.upper = self.linear(e.upper, True) if e.upper is not None else None
@@ -587,6 +595,17 @@ class State:
 
 MAX_STATES = 48
 
+# calls whose every evaluation yields a new value / has an effect on what the next evaluation yields: they keep
+# their identity (the k-th evaluation of this call text on this path) instead of being duplicated by substitution
+IMPURE = {"pop", "pop_int", "pop_nonnegative", "pop_check_bounds", "read", "readline", "next", "send", "recv", "popleft", "popitem", "parse", "parse_struct",
+          "parse_satoshi_int", "parse_satoshi_string", "parse_as_header", "parse_int_6", "parse_optional_bool", "getrandbits", "urandom", "entropy_f", "parse_f", "array_count_parse_f"}
+
+
+def _impure(call):
+    f = call.func
+    name = f.attr if isinstance(f, ast.Attribute) else (f.id if isinstance(f, ast.Name) else None)
+    return name in IMPURE
+
 
 class SymWalker:
     """Walks a function body, path-sensitively (trace partitioning: one State per distinct store; states with
@@ -617,6 +636,33 @@ class SymWalker:
         self.functional = functional_locals(func_node) if isinstance(func_node, (ast.FunctionDef, ast.AsyncFunctionDef)) else set()
 
     # ---------------------------------------------------------------- values
+    CNT = "\0call-counts"
+
+    def _pretag(self, *exprs):
+        """number the impure calls this statement evaluates, in evaluation (post-)order, per call text and path"""
+        todo = []
+
+        def post(n):
+            if isinstance(n, (ast.Lambda, ast.ListComp, ast.SetComp, ast.DictComp, ast.GeneratorExp)):
+                return          # evaluated later / repeatedly: left untagged
+            for c in ast.iter_child_nodes(n):
+                post(c)
+            if isinstance(n, ast.Call) and _impure(n):
+                todo.append(n)
+        for e in exprs:
+            if isinstance(e, ast.AST):
+                post(e)
+        if not todo:
+            return
+        cur = self.env.get(self.CNT)
+        counts = dict(cur.value) if cur is not None else {}
+        for n in todo:
+            n._tag = None
+            t = norm(self.sub(n))
+            counts[t] = counts.get(t, 0) + 1
+            n._tag = counts[t]
+        self.env[self.CNT] = ast.Constant(tuple(sorted(counts.items())))
+
     def sub(self, e, env=None):
         """expression with locals substituted by their symbolic values, canonicalised"""
         if e is None:
@@ -630,6 +676,13 @@ class SymWalker:
             def visit_Name(s, n):
                 if isinstance(n.ctx, ast.Load) and n.id in env and n.id not in s.bound:
                     return copy.deepcopy(env[n.id])
+                return n
+
+            def visit_Call(s, n):
+                tag = getattr(n, "_tag", None)
+                n = s.generic_visit(n)
+                if tag is not None and not any(k.arg == "__n" for k in n.keywords):
+                    n.keywords = list(n.keywords) + [ast.keyword("__n", ast.Constant(tag))]
                 return n
 
             def _comp(s, n):
@@ -866,7 +919,11 @@ class SymWalker:
         elt = v.right.elts[0]
         if any(isinstance(n, ast.Name) and n.id == x for n in ast.walk(elt)):
             return None
-        comp = ast.ListComp(copy.deepcopy(elt), [ast.comprehension(copy.deepcopy(st.target), copy.deepcopy(it), [], 0)])
+        elt = copy.deepcopy(elt)
+        for c_ in ast.walk(elt):
+            if isinstance(c_, ast.Call):
+                c_.keywords = [k for k in c_.keywords if k.arg != "__n"]       # evaluated once per iteration: no stable identity
+        comp = ast.ListComp(elt, [ast.comprehension(copy.deepcopy(st.target), copy.deepcopy(it), [], 0)])
         for n in ast.walk(comp.generators[0].target):
             if isinstance(n, ast.Name):
                 n.ctx = ast.Store()
@@ -901,7 +958,29 @@ class SymWalker:
             stack.extend(ast.iter_child_nodes(n))
         return None
 
+    def _find_unrollable(self, st):
+        for n in ast.walk(st):
+            if isinstance(n, ast.ListComp) and len(n.generators) == 1 and not n.generators[0].ifs and isinstance(n.generators[0].target, ast.Name) \
+                    and any(isinstance(c, ast.Call) and _impure(c) for c in ast.walk(n.elt)):
+                g = n.generators[0]
+                if isinstance(g.iter, ast.Call) and isinstance(g.iter.func, ast.Name) and g.iter.func.id == "range" and len(g.iter.args) == 1 and isinstance(g.iter.args[0], ast.Constant) \
+                        and isinstance(g.iter.args[0].value, int) and 0 < g.iter.args[0].value <= 8:
+                    return n, [ast.Constant(i) for i in range(g.iter.args[0].value)]
+                if isinstance(g.iter, (ast.Tuple, ast.List)) and 0 < len(g.iter.elts) <= 8:
+                    return n, list(g.iter.elts)
+        return None
+
     def stmt(self, st, states):
+        if isinstance(st, (ast.Assign, ast.AnnAssign, ast.AugAssign, ast.Expr, ast.Return)):
+            u = self._find_unrollable(st)
+            if u is not None:
+                # [f() for i in range(3)] with an impure f is [f(), f(), f()]: three evaluations, in this order
+                comp, items = u
+                lst = ast.List([_replace_name(comp.elt, comp.generators[0].target.id, it_) for it_ in items], ast.Load())
+                new = _replace_node(st, comp, lst)
+                new._orig = getattr(st, "_orig", st)
+                ast.copy_location(new, st)
+                return self.stmt(new, states)
         ie = self._find_ifexp(st) if isinstance(st, (ast.Assign, ast.AnnAssign, ast.AugAssign, ast.Expr, ast.Return, ast.Raise)) else None
         if ie is not None:
             # `x = a if c else b`  ==  `if c: x = a else: x = b`
@@ -918,6 +997,7 @@ class SymWalker:
             res = []
             for s in states:
                 self.env = s.env
+                self._pretag(st.test)
                 c = self.atomize(st.test)
                 if not getattr(st, "_synthetic", False):
                     self._record_guard(st, c, self.sub(st.test))
@@ -932,6 +1012,7 @@ class SymWalker:
             for s in states:
                 self.env = s.env
                 v = st.value if isinstance(st, ast.Return) else st.exc
+                self._pretag(v)
                 if v is not None:
                     self._calls(v, st, s.reach)
                 self.exits.append(Exit("return" if isinstance(st, ast.Return) else "raise", getattr(st, "_orig", st), s.reach, self.sub(v) if v is not None else None))
@@ -986,6 +1067,8 @@ class SymWalker:
             after = []
             for s in states:
                 self.env = s.env
+                if is_for:
+                    self._pretag(st.iter)
                 it = self.sub(st.iter) if is_for else None
                 if is_for:
                     self._calls(st.iter, st, s.reach)
@@ -1079,6 +1162,7 @@ class SymWalker:
         for s in states:
             self.env = s.env
             self.visits.append((getattr(st, "_orig", st), s.reach))
+            self._pretag(getattr(st, "value", None), *([t for t in getattr(st, "targets", [])] + ([st.target] if hasattr(st, "target") else [])))
             self._simple(st, s.reach)
         return self._dedupe(states) if len(states) > 1 else states
 
@@ -2101,9 +2185,8 @@ def compare_summaries(code, ref, near=0.7):
     return ("unrecognised" if far else "differs"), details
 
 
-def against_reference(ctx, fi, ref_source, ref_names, key, int_names=None, leaf=None, keep=(), what=None, sample=True, inline=True):
-    """obligation helper: fi must compute what the reference transcription computes (canonical forms equal).
-    A near miss (same skeleton, one component different) is a violation; a different organisation is undecided."""
+def reference_status(ctx, fi, ref_source, ref_names, int_names=None, leaf=None, keep=(), inline=True):
+    """-> (status, details, s_ref, ref_name): how fi relates to the reference transcription(s)"""
     tree = ast.parse(ref_source) if isinstance(ref_source, str) else ref_source
     if isinstance(ref_names, str):
         ref_names = [ref_names]
@@ -2123,7 +2206,13 @@ def against_reference(ctx, fi, ref_source, ref_names, key, int_names=None, leaf=
                 ref_consts[n.targets[0].id] = ast.literal_eval(n.value)
             except Exception:
                 pass
-    canon_ref = Canon((lambda e: ref_consts.get(e.id) if isinstance(e, ast.Name) else None) if ref_consts else None, int_names,
+    dotted_consts = ref_consts.get("_CONSTS") if isinstance(ref_consts.get("_CONSTS"), dict) else {}
+
+    def ref_const_of(e):
+        if isinstance(e, ast.Name) and e.id in ref_consts and e.id != "_CONSTS":
+            return ref_consts[e.id]
+        return dotted_consts.get(norm(e))
+    canon_ref = Canon(ref_const_of if (ref_consts or dotted_consts) else None, int_names,
                       (lambda c: ref_funcs.get(c.func.id) if isinstance(c.func, ast.Name) and c.func.id != "_" else None) if inline else None)
     s_code = summarize(fi.node, canon_code, leaf, keep)
     best = None
@@ -2140,6 +2229,13 @@ def against_reference(ctx, fi, ref_source, ref_names, key, int_names=None, leaf=
         if best is None or (rank, len(details)) < best[0]:
             best = ((rank, len(details)), status, details, s_ref, ref_name)
     _, status, details, s_ref, ref_name = best
+    return status, details, s_ref, ref_name
+
+
+def against_reference(ctx, fi, ref_source, ref_names, key, int_names=None, leaf=None, keep=(), what=None, sample=True, inline=True):
+    """obligation helper: fi must compute what the reference transcription computes (canonical forms equal).
+    A near miss (same skeleton, one component different) is a violation; a different organisation is undecided."""
+    status, details, s_ref, ref_name = reference_status(ctx, fi, ref_source, ref_names, int_names, leaf, keep, inline)
     where = "%s:%d" % (fi.module.relpath, fi.node.lineno)
     if status == "same":
         ctx.ok(what or key, sample={"function": fi.qualname, "reference": ref_name, "components": len(s_ref.items), "example": repr(s_ref.items[0])[:160] if s_ref.items else ""} if sample else None)
